@@ -33,7 +33,8 @@ def model_line(case):
 def explore(run, tier):
     rng = common.rng_for(run.seed, PROP)
     cases = []
-    masks = ['*', 'X', '#', ' ', '0', '•', 'é', '9', '-', '\x00', 'x', '.', '?', 'N', '_', '=', '+', 'Z', '1', '~']
+    masks = ['*', 'X', '#', ' ', '0', '•', 'é', '9', '-', '\x00', 'x', '.', '?', 'N', '_', '=', '+', 'Z', '1', '~',
+             '{', '}', '%', '\\', '$', '&']          # (characters that mean something to a formatting mini-language)
     alpha = '0123456789'
     wild = '0123456789ABCxyz -*é中\x00'
     for n in range(0, 41):
@@ -46,7 +47,7 @@ def explore(run, tier):
     for _ in range(1000 if tier == 'quick' else 50000):
         n = rng.randrange(10, 41)
         cases.append({'s': ''.join(rng.choice(rng.choice([alpha, wild])) for _ in range(n)), 'm': rng.choice(masks)})
-    run.exhaustive.append('every length 0..40 x 20 mask characters (digits and arbitrary characters)')
+    run.exhaustive.append('every length 0..40 x 26 mask characters (digits and arbitrary characters)')
     run.correspond(__name__, cases, use_model=run.use_model)
     from harness.props import c16b
     c16b.explore(run, tier)
